@@ -62,7 +62,7 @@ typename LR::shared_handle acquire(LR* lr, int form)
 {
     using namespace std::chrono_literals;
 #ifdef MODE_C14
-    noblock_begin("lr_guarded read acquisition", 12);
+    noblock_begin("lr_guarded read acquisition", 40);
 #endif
     auto take = [&]() -> typename LR::shared_handle {
         if constexpr (std::is_same_v<LR, LR_T>) {
@@ -273,15 +273,30 @@ void body_throwing_t(int throw_at, int readers, int acq)
 // before the modification and releases once the writer is inside modify(); reader 2 takes a handle only
 // after the writer has switched the counting side (observed on the implementation's flag) and keeps it
 // until the writer has FINISHED.  The writer may only be delayed by reader 1.
+// The late-reader program needs to know when the writer has switched the side readers count themselves on. It reads
+// the implementation's flag for that if a member of that name exists; on an implementation without it the program
+// degenerates to nothing (never a build failure or an alarm).
+template<class L, class = void>
+struct has_counting_flag: std::false_type {};
+template<class L>
+struct has_counting_flag<L, std::void_t<decltype(std::declval<L&>().m_countingLeft.load())>>: std::true_type {};
+template<class L>
+bool counting_side(L* lr)
+{
+    if constexpr (has_counting_flag<L>::value) return lr->m_countingLeft.load();
+    else return false;
+}
+
 template<class LR>
 void body_late_reader_t()
 {
+    if (!has_counting_flag<LR>::value) return;
     g_functor_ran = false;
     hx::win_reset();
     LR* lr = new LR(0);
     {
         Event r1_in, writer_done;
-        bool counting0 = lr->m_countingLeft.load();
+        bool counting0 = counting_side(lr);
         std::vector<int> ids;
         ids.push_back(spawn([lr, &r1_in] {
             typename LR::shared_handle h = lr->lock_shared();
@@ -302,7 +317,7 @@ void body_late_reader_t()
             writer_done.set();
         }));
         ids.push_back(spawn([lr, counting0, &writer_done] {
-            await([lr, counting0] { return lr->m_countingLeft.load() != counting0; });
+            await([lr, counting0] { return counting_side(lr) != counting0; });
             typename LR::shared_handle h = lr->lock_shared();
             int v = hx::read_pair(*h, "reader 2 (arrived after the writer switched sides)");
             MC_CHECK(v == 1, "stale-read", "a reader arriving after the flip observed %d", v);
